@@ -212,9 +212,10 @@ class SupervisorNamespaceRPCInterface:
             if config.name == name:
                 try:
                     result = self.supervisord.add_process_group(config)
-                except ValueError as why:
+                except (ValueError, OSError) as why:
                     # the group could not be created (for instance the socket
-                    # of an fcgi-program cannot be bound)
+                    # of an fcgi-program cannot be bound, or an AUTO child log
+                    # cannot be created in childlogdir)
                     raise RPCError(Faults.FAILED, '%s: %s' % (name, why))
                 if not result:
                     raise RPCError(Faults.ALREADY_ADDED, name)
